@@ -119,7 +119,7 @@ theorem Settled.setSig {t : LSt} (h : Settled t) {i : Nat} {g g2 : LSig} (hx : a
     (hK : ∀ o, (g2.cells.any (fun c => c.slot.holdsK o) || g2.limbo.any (fun sl => sl.holdsK o))
       = (g.cells.any (fun c => c.slot.holdsK o) || g.limbo.any (fun sl => sl.holdsK o))) :
     Settled (Spec.setSig t i g2) := by
-  refine h.congr rfl rfl (fun o => ?_) (fun o => ?_)
+  refine h.congr rfl rfl rfl (fun o => ?_) (fun o => ?_)
   · unfold Spec.heldT Spec.setSig
     simp only
     rw [any_aset_congr _ _ _ _ _ hx (hT o)]
@@ -129,7 +129,7 @@ theorem Settled.setSig {t : LSt} (h : Settled t) {i : Nat} {g g2 : LSig} (hx : a
 
 theorem Settled.setS {t : LSt} (h : Settled t) {i : Nat} {v v2 : SlotVar} (hx : aget t.S i = some v)
     (hs : v2.slot = v.slot) : Settled { t with S := aset t.S i v2 } := by
-  refine h.congr rfl rfl (fun o => ?_) (fun o => ?_)
+  refine h.congr rfl rfl rfl (fun o => ?_) (fun o => ?_)
   · unfold Spec.heldT
     simp only
     rw [any_aset_congr _ _ _ _ _ hx (by simp [hs])]
@@ -140,7 +140,7 @@ theorem Settled.setS {t : LSt} (h : Settled t) {i : Nat} {v v2 : SlotVar} (hx : 
 theorem Settled.fail {t : LSt} (h : Settled t) (m : String) : Settled (t.fail m) := by
   unfold LSt.fail
   cases t.err
-  · exact h.congr rfl rfl (fun _ => rfl) (fun _ => rfl)
+  · exact h.congr rfl rfl rfl (fun _ => rfl) (fun _ => rfl)
   · exact h
 
 /-! ## `invokeFun` -/
@@ -168,7 +168,7 @@ theorem invoke_leaf (f : Nat) (ih : All f) (P : Prog) (ρ : IdRel) (t u : LSt) (
     rw [hb] at hr
     simp only [Option.some.injEq, Prod.mk.injEq] at hr
     obtain ⟨rfl, rfl, rfl⟩ := hr
-    exact ⟨_, rfl, ⟨ρ, hl, Step.of_eq rfl rfl, Fr.of_eq rfl rfl⟩, hst.congr rfl rfl (fun _ => rfl) (fun _ => rfl)⟩
+    exact ⟨_, rfl, ⟨ρ, hl, Step.of_eq rfl rfl, Fr.of_eq rfl rfl⟩, hst.congr rfl rfl rfl (fun _ => rfl) (fun _ => rfl)⟩
   | some body =>
     rw [hb] at hr hc
     simp only at hr hc ⊢
@@ -185,10 +185,10 @@ theorem invoke_leaf (f : Nat) (ih : All f) (P : Prog) (ρ : IdRel) (t u : LSt) (
       simp only [Option.some.injEq, Prod.mk.injEq] at hr
       obtain ⟨rfl, rfl, rfl⟩ := hr
       obtain ⟨u2, e2, ⟨ρ2, hq2, hs2, hf2⟩, hst2⟩ := ih.body P ρ _ _ body t2 o2 hl1
-        (hst.congr rfl rfl (fun _ => rfl) (fun _ => rfl)) (fun hd => by simp at hd) hc hrb
+        (hst.congr rfl rfl rfl (fun _ => rfl) (fun _ => rfl)) (fun hd => by simp at hd) hc hrb
       rw [e2]
       refine ⟨_, rfl, ⟨ρ2, ?_, hs2.congr rfl rfl rfl rfl, ⟨?_, fun j => ?_, fun j => ?_⟩⟩,
-        hst2.congr rfl rfl (fun _ => rfl) (fun _ => rfl)⟩
+        hst2.congr rfl rfl rfl (fun _ => rfl) (fun _ => rfl)⟩
       · have := hq2.setDepth (t2.depth - 1)
         rw [hq2.depth]; exact this
       · show t2.depth - 1 = t.depth
